@@ -379,6 +379,84 @@ def disconnect_record(ctx: Ctx, rule: str):
 
 
 
+PLAIN_STATE = {("node.peer", "PeerConnection"): ("state",),
+               ("node.peer", "Peer"): ("connection", "disconnect_reason", "last_disconnect")}
+
+
+def stores_take_effect(ctx: Ctx, rule: str, table=None):
+    """The attributes the typestate rules follow (`conn.state = ...`, `peer.connection = ...`) are
+    what they look like: a store changes the value and a load reads it.  When the class turns one
+    of them into a property, the setter stores the value it is given on every path (an exit
+    without the store is allowed only where the new value equals the old one) and the getter
+    returns that field; the class defines no __setattr__ / __getattribute__ that could decide
+    otherwise.  A setter that refuses transitions silently makes every `conn.state = X` in the
+    node conditional on a table the handlers never see."""
+    from ..atoms import Atomizer, must_facts
+    model = ctx.model
+    for (mod, cname), attrs in (table or PLAIN_STATE).items():
+        ci = model.cls(mod, cname)
+        for c in model.mro(ci):
+            for dunder in ("__setattr__", "__getattribute__", "__delattr__"):
+                if dunder in c.methods:
+                    ctx.inst(f"{cname}:{dunder}", rule=rule)
+                    ctx.fail(f"{cname}:{dunder}", c.methods[dunder].loc(),
+                             f"{c.name} defines {dunder}: every attribute store on a {cname} goes "
+                             f"through it and the state rules cannot take `x.{attrs[0]} = v` at "
+                             f"face value", rule=rule)
+        for attr in attrs:
+            cons = f"{cname}.{attr}:plain-store"
+            getter = model.find_method(ci, attr)
+            setter = model.find_method(ci, attr, setter=True)
+            if getter is None or not getter.is_property:
+                ctx.inst(cons, rule=rule, sample="plain attribute")
+                continue
+            ctx.inst(cons, rule=rule, sample="property")
+            ctx.use(getter)
+            if setter is None:
+                ctx.fail(cons, getter.loc(), f"{cname}.{attr} is a read-only property: the stores "
+                         f"in the node raise AttributeError", rule=rule)
+                continue
+            ctx.use(setter)
+            param = setter.node.args.args[1].arg
+            g = cfg_of(setter, inline=False)
+            stores = [n for n in g.nodes if n.kind == "stmt" and isinstance(n.ast, (ast.Assign, ast.AnnAssign))
+                      and any(A.dotted(t).startswith("self.") for t in n.stores())
+                      and isinstance(getattr(n.ast, "value", None), ast.Name) and n.ast.value.id == param]
+            if not stores:
+                ctx.fail(cons, setter.loc(), f"the setter of {cname}.{attr} never stores the value "
+                         f"it is given", rule=rule)
+                continue
+            backing = A.dotted(stores[0].stores()[0])
+            rets = [n.value for n in ast.walk(getter.node) if isinstance(n, ast.Return)]
+            if not rets or any(r is None or A.dotted(r) != backing for r in rets):
+                ctx.fail(cons + "#getter", getter.loc(), f"the getter of {cname}.{attr} does not "
+                         f"return the field the setter stores ({backing})", rule=rule)
+            r = g.reach([d for l, d in g.entry.succ], normal_blocked=stores, skip_labels=("exc",))
+            if g.exit in r:
+                at = Atomizer(model, setter.module, ci)
+                exits = [n for n in r if n not in stores
+                         and any(d is g.exit for l, d in n.succ if l != "exc")]
+                # `old = self._state; if new == old: return`
+                alias = {backing} | {t.id for n in ast.walk(setter.node) if isinstance(n, ast.Assign)
+                                     and A.dotted(n.value) == backing for t in n.targets
+                                     if isinstance(t, ast.Name)}
+                for n in exits:
+                    fx = must_facts(g, at, n)
+                    same = any(str(a[1]) in ("==", "==x", "is") and a[3] is True and
+                               param in (str(a[0]), str(a[2])) and
+                               (str(a[0]) in alias or str(a[2]) in alias) for a in fx)
+                    if not same:
+                        ctx.fail(cons, g.loc(n), f"the setter of {cname}.{attr} can return without "
+                                 f"storing the value (guards: {sorted(map(str, fx))[:3]}): "
+                                 f"`x.{attr} = v` silently does nothing on that path - a connection "
+                                 f"that the handlers have moved to another state (DISCONNECTING "
+                                 f"after a DPR, READY after a DWA, CLOSING) stays where it was, is "
+                                 f"still offered for routing or never closes", rule=rule,
+                                 expected="every path stores the value (or the value is already there)",
+                                 observed="an exit without the store")
+                        break
+
+
 def ready_state_stores(ctx: Ctx, rule: str):
     """Typestate: a connection enters a ready state only through the ready flag
     (after a successful capabilities exchange) or through the DWR/DWA toggles,
@@ -391,6 +469,7 @@ def ready_state_stores(ctx: Ctx, rule: str):
     WAITING = model.fold_name(peer_mod, "PEER_READY_WAITING_DWA")
     ctx.rule(rule, "stores of a ready state: only _flag_connection_as_ready, and the DWR/DWA "
                    "toggles guarded by the state they come from", floor=3)
+    stores_take_effect(ctx, rule)
     for f in model.all_funcs():
         if ".node" not in f.module.name:
             continue
@@ -1283,7 +1362,7 @@ def io_loop_every_round(ctx: Ctx, rule: str, want=("timers", "reconnect")):
     ctx.use(hc)
     ctx.rule(rule, "every round of the I/O loop runs the due periodic work (timer pass over every "
                    "connection, reconnect scan), also rounds in which select() reported events",
-             floor=len(want))
+             floor=len(want) + 1)
     g = cfg_of(hc)
     outer = [n for n in g.nodes if n.kind == "loop"]
     if not outer:
@@ -1310,6 +1389,32 @@ def io_loop_every_round(ctx: Ctx, rule: str, want=("timers", "reconnect")):
         work["reconnect"] = (rc, "the reconnect scan (`self._reconnect_peers()`)",
                              "a lost persistent peer is not dialled again while other connections "
                              "keep the node busy")
+    # the wait itself is bounded: select() is given a finite time-out on every path
+    cons = "_handle_connections:select-timeout-bounded"
+    ctx.inst(cons, rule=rule)
+    for s_ in sel:
+        for c in s_.calls():
+            if not (A.call_name(c).endswith("select.select") or A.call_name(c) == "select"):
+                continue
+            to = c.args[3] if len(c.args) > 3 else next((k.value for k in c.keywords if k.arg == "timeout"), None)
+            vals = [to]
+            if isinstance(to, ast.Name):
+                vals = [n.value for n in ast.walk(hc.node) if isinstance(n, ast.Assign)
+                        and any(isinstance(t, ast.Name) and t.id == to.id for t in n.targets)]
+                vals += [n.value for n in ast.walk(hc.node) if isinstance(n, ast.AnnAssign)
+                         and isinstance(n.target, ast.Name) and n.target.id == to.id and n.value is not None]
+            flat = []
+            for v in vals:
+                flat += [v.body, v.orelse] if isinstance(v, ast.IfExp) else [v]
+            unbounded = [v for v in flat if v is None or (isinstance(v, ast.Constant) and v.value is None)]
+            if to is None or unbounded or not flat:
+                ctx.fail(cons, g.loc(s_), f"select() can be called without a time-out "
+                         f"(`{ast.unparse(c)[:80]}`): the I/O thread then sleeps until a socket or the "
+                         f"wake-up pipe has something to say - the reconnect wait of a lost peer, the "
+                         f"capabilities-exchange deadlines and the watchdog are evaluated by this "
+                         f"loop only and are not evaluated while it sleeps", rule=rule,
+                         expected="a finite time-out (the wake-up interval) on every path",
+                         observed="None / no time-out on some path")
     for k, (nodes, what, harm) in work.items():
         cons = f"_handle_connections:every-round({k})"
         ctx.inst(cons, rule=rule)
@@ -1992,3 +2097,340 @@ def received_records_rechecked(ctx: Ctx, rule: str):
                      f"of the dispatcher and this statement has been swept already, and the record stays "
                      f"in Node.{table} for the life of the node", rule=rule,
                      expected="after filing: `if conn.ident not in self.connections:` take the record back")
+
+
+# ---------------------------------------------------------------------------------------------
+# names
+def worker_roots(model) -> dict[str, list]:
+    """The entry points of the node's own threads."""
+    def fn(mod, q):
+        try:
+            return [model.func(mod, q)]
+        except Exception:
+            return []
+    return {
+        "node-loop": fn("node.node", "Node._handle_connections"),
+        "stats": fn("node.node", "Node._collect_stats"),
+        "conn-reader": fn("node.peer", "PeerConnection.work_read_queue"),
+        "conn-writer": fn("node.peer", "PeerConnection.work_write_queue"),
+        "app-worker": fn("node.application", "ThreadingApplication._wait_for_recv_msg")
+        + fn("node.application", "ThreadingApplication._wait_for_resp_msg")
+        + fn("node.application", "ThreadingApplication._process_recv_msg"),
+    }
+
+
+def names_resolve(ctx: Ctx, rule: str, extra_roots=(), contexts=("node-loop", "conn-reader", "conn-writer")):
+    """Every global name read by the code the node's worker threads run (and by the given anchored
+    functions) is bound in its module: defined, imported, or exported by the `__all__` of the module
+    a star import takes it from.  A name that resolves to nothing is a NameError at the first
+    execution of that statement - on the I/O thread that ends the node's service for good (no
+    timer, accept, read, write, close or reconnect after it), on a connection's reader it ends the
+    delivery for that connection.  Nothing at import time shows it."""
+    from ..effects import effects_of
+    from ..names import unresolved_names
+    from ..srcmodel import AnalysisError
+    model = ctx.model
+    F = effects_of(model)
+    roots = worker_roots(model)
+    if not roots["node-loop"] or not roots["conn-reader"]:
+        raise AnalysisError("worker thread entry points not found")
+    seen = {}
+    for cname in contexts:
+        for f in F.reachable_funcs(roots[cname]):
+            seen.setdefault(id(f.node), (f, cname))
+    for f in F.reachable_funcs(list(extra_roots)):
+        seen.setdefault(id(f.node), (f, "anchor"))
+    ctx.rule(rule, "every global name read on the node's worker threads and in the anchored "
+                   "functions resolves in its module (star imports honour the exporter's __all__)",
+             floor=40)
+    for f, cname in seen.values():
+        ctx.use(f)
+        cons = f"{f.qualname}:names"
+        ctx.inst(cons, rule=rule)
+        bad = unresolved_names(f)
+        for nm, node in bad:
+            ctx.fail(f"{f.qualname}:name({nm})", f.loc(node),
+                     f"`{nm}` resolves to nothing in {f.module.name} (not defined, not imported, "
+                     f"not in the `__all__` of a star-imported module): NameError when this "
+                     f"statement runs on the {cname} path - the thread ends there", rule=rule,
+                     expected="a binding for the name in the module namespace",
+                     observed="none (symtable: implicit global; module lookup: no binding)")
+
+
+# ---------------------------------------------------------------------------------------------
+# the received bytes
+def _buf_kind(model, f, e: ast.expr, depth: int = 4, _seen=None) -> str:
+    """bytes | mutable | unknown - the kind of buffer object an expression denotes."""
+    _seen = _seen or set()
+    if e is None or depth < 0:
+        return "unknown"
+    if isinstance(e, ast.Constant):
+        return "bytes" if isinstance(e.value, bytes) else "unknown"
+    if isinstance(e, ast.Call):
+        nm = A.call_name(e)
+        last = nm.split(".")[-1]
+        if last in ("bytearray", "memoryview") or last in ("getbuffer", "cast", "toreadonly"):
+            return "mutable"
+        if last in ("recv", "read", "sctp_recv", "recvmsg") or nm in ("bytes", "os.read", "b''.join") \
+                or last in ("tobytes", "getvalue", "get_buffer", "as_bytes", "join", "encode"):
+            return "bytes"
+        return "unknown"
+    if isinstance(e, ast.Subscript):
+        return _buf_kind(model, f, e.value, depth, _seen)
+    if isinstance(e, ast.BinOp) and isinstance(e.op, ast.Add):
+        return _buf_kind(model, f, e.left, depth - 1, _seen)
+    if isinstance(e, ast.IfExp):
+        ks = {_buf_kind(model, f, x, depth - 1, _seen) for x in (e.body, e.orelse)}
+        return "mutable" if "mutable" in ks else ks.pop() if len(ks) == 1 else "unknown"
+    if isinstance(e, ast.Name):
+        key = ("n", id(f.node), e.id)
+        if key in _seen:
+            return "bytes"     # a self-reference (x = x[n:]) keeps the kind the other definitions give
+        _seen = _seen | {key}
+        kinds = set()
+        for n in ast.walk(f.node):
+            if isinstance(n, ast.Assign) and any(isinstance(t, ast.Name) and t.id == e.id for t in n.targets):
+                kinds.add(_buf_kind(model, f, n.value, depth - 1, _seen))
+            elif isinstance(n, ast.AnnAssign) and isinstance(n.target, ast.Name) and n.target.id == e.id \
+                    and n.value is not None:
+                kinds.add(_buf_kind(model, f, n.value, depth - 1, _seen))
+            elif isinstance(n, ast.NamedExpr) and n.target.id == e.id:
+                kinds.add(_buf_kind(model, f, n.value, depth - 1, _seen))
+        if e.id in {a.arg for a in f.node.args.args} and not kinds:
+            return "param"
+        return "mutable" if "mutable" in kinds else "bytes" if kinds == {"bytes"} else "unknown"
+    if isinstance(e, ast.Attribute) and A.dotted(e.value) == "self" and f.cls is not None:
+        key = ("a", f.cls.name, e.attr)
+        if key in _seen:
+            return "bytes"
+        _seen = _seen | {key}
+        kinds = set()
+        for c in model.mro(f.cls):
+            for m in c.all_funcs:
+                for n in ast.walk(m.node):
+                    tv = None
+                    if isinstance(n, ast.Assign) and any(A.dotted(t) == f"self.{e.attr}" for t in n.targets):
+                        tv = n.value
+                    elif isinstance(n, ast.AnnAssign) and A.dotted(n.target) == f"self.{e.attr}":
+                        tv = n.value
+                    if tv is not None:
+                        kinds.add(_buf_kind(model, m, tv, depth - 1, _seen))
+        return "mutable" if "mutable" in kinds else "bytes" if kinds == {"bytes"} else "unknown"
+    return "unknown"
+
+
+def received_chunks_are_immutable_bytes(ctx: Ctx, rule: str):
+    """What travels from the socket to the decoder is an immutable `bytes` object at every step:
+    the value of `recv()` handed to add_in_bytes, the connection's read buffer, the slices given to
+    MessageHeader.from_bytes / Message.from_bytes.  The decoder keeps slices of its input as AVP
+    payloads (an OctetString value *is* that slice) and the chunk waits in a queue for another
+    thread: a bytearray makes every decoded OctetString a bytearray (which the encoder refuses), a
+    memoryview of a reused receive buffer is overwritten by the next read before the reader thread
+    has copied it."""
+    from ..srcmodel import AnalysisError
+    model = ctx.model
+    nc = model.cls("node.node", "Node")
+    pc = model.cls("node.peer", "PeerConnection")
+    hc, rq, ab = nc.methods.get("_handle_connections"), pc.methods.get("work_read_queue"), pc.methods.get("add_in_bytes")
+    if hc is None or rq is None or ab is None:
+        raise AnalysisError("receive path not found")
+    ctx.use(hc, rq, ab)
+    ctx.rule(rule, "the received bytes are immutable `bytes` objects from recv() to the decoder",
+             floor=4)
+    sites = []
+    for n in ast.walk(hc.node):
+        if isinstance(n, ast.Call) and A.call_name(n).endswith(".add_in_bytes") and n.args:
+            sites.append((hc, n, n.args[0], "the chunk handed to add_in_bytes"))
+    for n in ast.walk(ab.node):
+        if isinstance(n, ast.Call) and A.call_name(n).endswith(".put") and n.args:
+            sites.append((ab, n, n.args[0], "the chunk queued for the reader thread"))
+    for n in ast.walk(rq.node):
+        if isinstance(n, ast.Call) and A.call_name(n).endswith(".from_bytes") and n.args:
+            sites.append((rq, n, n.args[0], f"the argument of {A.call_name(n)}"))
+    if len(sites) < 4:
+        raise AnalysisError(f"receive path: only {len(sites)} sites found")
+    for f, call, arg, what in sites:
+        cons = f"{f.qualname}:{A.call_name(call).split('.')[-1]}({ast.unparse(arg)[:40]})"
+        k = _buf_kind(model, f, arg)
+        ctx.inst(cons, rule=rule, sample=k)
+        if k == "mutable":
+            ctx.fail(cons, f.loc(call), f"{what} (`{ast.unparse(arg)[:60]}`) is a mutable buffer "
+                     f"(bytearray / memoryview), not `bytes`: the decoder keeps slices of it as AVP "
+                     f"payloads - OctetString values come out as bytearray and cannot be encoded "
+                     f"again, and a view of a reused buffer changes under the reader thread",
+                     rule=rule, expected="bytes at every step from recv() to from_bytes()",
+                     observed="bytearray / memoryview")
+
+
+# ---------------------------------------------------------------------------------------------
+# from the node to the request handler
+def application_delivery_chain(ctx: Ctx, rule: str):
+    """A request the node hands to an application (`app.receive_request(message)`) reaches that
+    application's `handle_request` on every non-faulting path: receive_request of every
+    application class either calls handle_request or queues the message, the queue's consumer
+    either starts the handler thread or answers the request itself, the handler thread calls
+    handle_request.  A path that returns earlier (a filter on what the message looks like, on
+    what other requests are in progress) is a request that is neither handled nor answered."""
+    from ..srcmodel import AnalysisError
+    model = ctx.model
+    app = model.cls("node.application", "Application")
+    ctx.rule(rule, "every request handed to an application reaches its handle_request (or is "
+                   "answered by the application machinery): no silent early exit on the way", floor=4)
+    classes = [app] + model.subclasses(app)
+
+    def must_pass(f, starts_pred, goal_pred, what, cons, via_loop=False):
+        ctx.use(f)
+        ctx.inst(cons, rule=rule)
+        g = cfg_of(f, inline=False)
+        goals = [n for n in g.nodes if n.kind in ("stmt", "test") and goal_pred(n)]
+        if not goals:
+            ctx.fail(cons, f.loc(), f"{f.qualname} never {what}", rule=rule)
+            return
+        if starts_pred is None:
+            starts = [d for l, d in g.entry.succ]
+            stops = [g.exit]
+        else:
+            src = [n for n in g.nodes if n.kind == "stmt" and starts_pred(n)]
+            if not src:
+                raise AnalysisError(f"{f.qualname}: the statement that takes the message was not found")
+            starts = [d for s in src for l, d in s.succ if l != "exc"]
+            stops = [g.exit] + [n for n in g.nodes if n.kind == "loop"]
+        r = g.reach(starts, blocked=goals, skip_labels=("exc",))
+        hit = [s for s in stops if s in r]
+        if hit:
+            early = [n for n in r if n.kind == "stmt" and isinstance(n.ast, (ast.Return, ast.Continue))]
+            ctx.fail(cons, g.loc(early[0]) if early else f.loc(),
+                     f"a path through {f.qualname} ends without having {what.replace('calls', 'called').replace('queues', 'queued').replace('starts', 'started')}: "
+                     f"the request is dropped there - the application never sees it and nobody "
+                     f"answers it", rule=rule,
+                     expected=f"every non-faulting path {what}", observed="a path around it")
+
+    n_recv = 0
+    for ci in classes:
+        rr = ci.methods.get("receive_request")
+        if rr is None:
+            continue
+        n_recv += 1
+        must_pass(rr, None,
+                  lambda n: n.has_call(lambda nm, c: nm in ("self.handle_request",) or nm.endswith("_queue.put")
+                                       or nm.endswith("_queue.put_nowait")),
+                  "calls handle_request / queues the message",
+                  f"{ci.name}.receive_request:delivers")
+    if n_recv < 2:
+        raise AnalysisError(f"only {n_recv} receive_request implementations found")
+    ta = model.cls("node.application", "ThreadingApplication")
+    w, p = ta.methods.get("_wait_for_recv_msg"), ta.methods.get("_process_recv_msg")
+    if w is None or p is None:
+        raise AnalysisError("ThreadingApplication worker functions not found")
+    must_pass(w, lambda n: n.has_call(lambda nm, c: nm.endswith("_recv_msg_queue.get")),
+              lambda n: n.has_call(lambda nm, c: nm.endswith(".start") or nm.endswith("send_answer")),
+              "starts the handler thread / answers the request",
+              "ThreadingApplication._wait_for_recv_msg:delivers")
+    must_pass(p, None, lambda n: n.has_call("self.handle_request") or n.has_call(
+        lambda nm, c: nm == "self.handle_request"),
+              "calls handle_request", "ThreadingApplication._process_recv_msg:delivers")
+
+
+# ---------------------------------------------------------------------------------------------
+# one way out
+def single_transmit_gate(ctx: Ctx, rule: str):
+    """Messages are queued for a connection (`add_out_msg`) by Node.send_message only, and the
+    answer records are written (`_record_answer`) from there only.  send_message is where a
+    transmitted answer removes the pending record of its request (so that a second answer for it
+    is refused), where it enters the duplicate-detection window, where the state of the connection
+    is checked: a second place that queues messages by-passes all three."""
+    from ..lockset import call_sites
+    from ..srcmodel import AnalysisError
+    model = ctx.model
+    nc = model.cls("node.node", "Node")
+    sm = nc.methods.get("send_message")
+    if sm is None:
+        raise AnalysisError("Node.send_message not found")
+    ctx.use(sm)
+    ctx.rule(rule, "add_out_msg and _record_answer are called by Node.send_message only", floor=2)
+    for meth in ("add_out_msg", "_record_answer"):
+        sites = [s for s in call_sites(model, meth) if ".node" in s.func.module.name]
+        ctx.inst(f"{meth}:callers", rule=rule, sample=[s.where for s in sites])
+        if not any(s.func is sm for s in sites):
+            ctx.fail(f"{meth}:callers", sm.loc(), f"send_message does not call {meth}", rule=rule)
+        for s in sites:
+            if s.func is not sm:
+                ctx.fail(f"{meth}:caller({s.func.qualname})", s.where,
+                         f"{s.func.qualname} calls {meth} itself instead of going through "
+                         f"send_message: the pending record of the request this answers is not "
+                         f"removed (the application's own, later answer is transmitted as a second "
+                         f"answer instead of failing with NotRoutable), the ready check and the "
+                         f"statistics are by-passed", rule=rule,
+                         expected="Node.send_message as the only caller", observed=s.func.qualname)
+
+
+# ---------------------------------------------------------------------------------------------
+# locks
+def no_lock_reacquired(ctx: Ctx, rule: str):
+    """A method that holds a non-re-entrant lock of its object (`with self._lock`, the lock being a
+    threading.Lock) does not call a method or read a property of the same object that takes that
+    lock again: the second acquisition waits for the first for ever.  The thread that runs into it
+    (a connection's reader counting a statistic, an application worker) never comes back and the
+    lock stays taken for every other thread."""
+    from ..lockset import held_locks, lock_fields
+    model = ctx.model
+    ctx.rule(rule, "no method re-acquires a non-re-entrant lock of `self` that its caller in the "
+                   "same class already holds", floor=2)
+    n_cls = 0
+    for ci in model.all_classes():
+        if ".node" not in ci.module.name:
+            continue
+        locks = {}
+        for c in model.mro(ci):
+            for k, v in lock_fields(model, c).items():
+                locks.setdefault(k, v)
+            # __setstate__ / __deepcopy__ re-create the lock: same kind
+        plain = {k for k, v in locks.items() if v.split(".")[-1] == "Lock"}
+        if not plain:
+            continue
+        n_cls += 1
+
+        def acquires(m, lk, depth=3, seen=()):
+            """does method m (or what it calls on self) take self.<lk>?"""
+            if m is None or depth < 0 or m in seen:
+                return None
+            for n in A.walk_no_nested(m.node):
+                if isinstance(n, (ast.With, ast.AsyncWith)) and any(
+                        ast.unparse(it.context_expr) == f"self.{lk}" for it in n.items):
+                    return n
+                if isinstance(n, ast.Call) and A.call_name(n) == f"self.{lk}.acquire":
+                    return n
+            for n in A.walk_no_nested(m.node):
+                if isinstance(n, ast.Call) and A.call_name(n).startswith("self.") and A.call_name(n).count(".") == 1:
+                    r = acquires(model.find_method(ci, A.call_name(n).split(".")[1]), lk, depth - 1, seen + (m,))
+                    if r is not None:
+                        return r
+            return None
+        props = {f.name: f for c in model.mro(ci) for f in c.all_funcs if f.is_property}
+        for f in ci.all_funcs:
+            for lk in plain:
+                cons = f"{ci.name}.{f.name}:{lk}-not-reacquired"
+                inner = []
+                for n in A.walk_no_nested(f.node):
+                    if isinstance(n, ast.Call) and A.call_name(n).startswith("self.") \
+                            and A.call_name(n).count(".") == 1 and f"self.{lk}" in held_locks(f, n):
+                        inner.append((n, model.find_method(ci, A.call_name(n).split(".")[1])))
+                    elif isinstance(n, ast.Attribute) and isinstance(n.ctx, ast.Load) and A.dotted(n.value) == "self" \
+                            and n.attr in props and f"self.{lk}" in held_locks(f, n):
+                        inner.append((n, props[n.attr]))
+                if not inner:
+                    continue
+                ctx.use(f)
+                ctx.inst(cons, rule=rule, sample=[ast.unparse(n)[:40] for n, _ in inner])
+                for n, m in inner:
+                    a = acquires(m, lk)
+                    if a is not None:
+                        ctx.fail(cons, f.loc(n), f"{ci.name}.{f.name} holds `self.{lk}` (a threading.Lock, "
+                                 f"not re-entrant) and calls `{ast.unparse(n)[:50]}`, which takes "
+                                 f"`self.{lk}` again ({m.loc(a)}): the thread dead-locks on itself and "
+                                 f"every later user of the lock waits behind it", rule=rule,
+                                 expected="the inner code runs without taking the lock again (or the lock is an RLock)",
+                                 observed=f"{m.qualname} acquires self.{lk}")
+                        break
+    ctx.inst("classes-with-plain-locks", rule=rule, sample=n_cls)
+    ctx.inst("classes-with-plain-locks#2", rule=rule, nontrivial=False)
